@@ -29,10 +29,20 @@ Proof.
     conj Hw. exact (ssim_incdec E decls file line o Hmets true m ks Hw Hw1 Hw0).
   - intros t m ks e Hw _. change (wts (SSet t m ks e)) with (metric_ok decls m (exprs_len ks) && keys_ok decls (o_strs o) (o_nre o) ks && ty_eqb (wmty decls m) t && Wt.opt_ty_is (etype decls (o_strs o) (o_nre o) e) t) in Hw.
     conj Hw. apply ssim_set; assumption.
-  - intros t m ks e Hw Hf. change (wts (SAddTo t m ks e)) with (metric_ok decls m (exprs_len ks) && keys_ok decls (o_strs o) (o_nre o) ks && ty_eqb (wmty decls m) t && Wt.opt_ty_is (etype decls (o_strs o) (o_nre o) e) t) in Hw.
-    change (frag_stmt (SAddTo t m ks e)) with (ty_eqb t TInt) in Hf.
-    assert (t = TInt) by (destruct t; cbn in Hf; congruence). subst t.
-    conj Hw. apply ssim_addto; assumption.
+  - intros t m ks e Hw Hf.
+    change (wts (SAddTo t m ks e)) with
+      (metric_ok decls m (exprs_len ks) && keys_ok decls (o_strs o) (o_nre o) ks && ty_eqb (wmty decls m) t &&
+       Wt.opt_ty_is (etype decls (o_strs o) (o_nre o) e) t &&
+       (ty_eqb t TInt || keys_ok decls (o_strs o) (o_nre o) (shift_exprs (nstr_exprs ks) ks))) in Hw.
+    change (frag_stmt (SAddTo t m ks e)) with (ty_eqb t TInt || pure_keys ks) in Hf.
+    conj Hw.
+    assert (Hnb : t <> TBool).
+    { intros ->. unfold metric_ok in Hw. unfold wmty in Hw2. destruct (nth_error decls (N.to_nat m)) as [d|]; [|discriminate].
+      apply andb_prop in Hw as [_ Hb]. destruct (md_ty d); cbn in *; congruence. }
+    destruct t; try congruence.
+    + apply ssim_addto; assumption.
+    + cbn [ty_eqb orb] in Hw0, Hf. apply ssim_addto_dup; auto.
+    + cbn [ty_eqb orb] in Hw0, Hf. apply ssim_addto_dup; auto.
   - intros e Hw _. change (wts (SSettime e)) with (Wt.opt_ty_is (etype decls (o_strs o) (o_nre o) e) TInt && i64 e) in Hw.
     conj Hw. apply ssim_settime; assumption.
   - intros e sid lay Hw _. change (wts (SStrptime e sid lay)) with (Wt.opt_ty_is (etype decls (o_strs o) (o_nre o) e) TStr && str_ok (o_strs o) sid lay) in Hw.
